@@ -100,12 +100,14 @@ def task_classify(pr, repo):
         conj = []
         for ion, q in p.ions.items():
             for padded in (ion, ' ' + ion, ion + ' '):
-                a = mkatom(repo, type='hetatm', res_name=padded[:3].ljust(3) if len(padded) <= 3 else padded, name=ion)
-                gi = ex.call_function(repo.func(GM + 'is_ion_group'), [params, a])
-                conj.append(isinstance(gi, Obj) and gi.cls.name == 'IonGroup' and gi.attrs.get('type') == 'ION')
+                # the ion is recognised by its residue name; its atom name may differ (IOD/I, FE2/FE, 1P/P ...)
+                for aname in (ion, ion[:1], ion.lower(), 'X1'):
+                    a = mkatom(repo, type='hetatm', res_name=padded[:3].ljust(3) if len(padded) <= 3 else padded, name=aname)
+                    gi = ex.call_function(repo.func(GM + 'is_ion_group'), [params, a])
+                    conj.append(isinstance(gi, Obj) and gi.cls.name == 'IonGroup' and gi.attrs.get('type') == 'ION')
         a = mkatom(repo, type='hetatm', res_name='XYZ')
         conj.append(ex.call_function(repo.func(GM + 'is_ion_group'), [params, a]) is None)
-        ctx.oblige('CL: is_ion_group <=> residue name (blanks stripped) is a configured ion, for all %d ions' % len(p.ions), all(conj))
+        ctx.oblige('CL: is_ion_group <=> residue name (blanks stripped) is a configured ion, whatever the atom name, for all %d ions' % len(p.ions), all(conj))
     pr.explore(ex, t_hetatm, 'is_ion_group')
 
     # ligand decision table
